@@ -66,6 +66,7 @@ var vmac struct {
 	sent      [6][]byte // messages the sender authenticated
 	wire      []byte    // the attacker's stream (for the unforgeability assumption)
 	recStarts []int     // offsets of the attacker's records in wire
+	allWindows bool     // apply the unforgeability assumption to every 32-byte window of the wire (small wires only)
 }
 
 type verifMAC struct {
@@ -94,6 +95,15 @@ func (m *verifMAC) Sum(b []byte) []byte {
 		if !genuine {
 			// E5: an attacker cannot have produced the tag of a message that was never authenticated
 			// (the tag is compared with the 32 bytes that follow the MAC'd data inside some attacker record)
+			if vmac.allWindows {
+				for off := 0; off+32 <= len(vmac.wire); off++ {
+					same := true
+					for j := 0; j < 32; j++ {
+						same = verifAnd(same, vmac.wire[off+j] == tag[j])
+					}
+					verifAssume(!same)
+				}
+			}
 			n := len(msg) - 13
 			for _, rs := range vmac.recStarts {
 				off := rs + vmacRecordHeaderLen + 16 + n
